@@ -25,6 +25,8 @@ structure DS where
   batch : Nat := 0        -- fresh at the start of every macro operation
   rs : Bool := false      -- the case runs on a real StandardRunService (loop drains at once)
   cand : List (Nat × Nat) := []  -- (id, instant) of the runtime timers set and not yet gone off (read off the events)
+  blocked : Bool := false        -- rs mode: the owner loop is stuck in a posted closure, nothing drains
+  dead : Bool := false           -- rs mode: the run service was stopped
   svc : Bool := false            -- service-level case: an actorex/service.Service owns the manager
   pending : List (Nat × Nat) := []  -- its request table: (tag, deadline)
   own : Nat := 0                 -- Service.timerCheckExpired
@@ -263,7 +265,17 @@ def parseActs (s : String) : List Act := (s.splitOn ",").filterMap parseAct
 def kvInt (ws : List String) (key : String) : Option Int := (kv ws key).bind String.toInt?
 
 def rsSuffix (d : DS) (toks : List String) : String :=
-  s!"ev={joinWith ";" toks} q={d.qlen} loop=1"
+  let q := if d.dead then "?" else toString d.qlen
+  s!"ev={joinWith ";" toks} q={q} loop=1"
+
+/-- a stopped run service: its exiting loop may still take some queued objects — exactly the
+ones whose callbacks were observed -/
+def pumpHinted (d : DS) (hints : List Nat) : DS × List String :=
+  hints.foldl (fun (acc : DS × List String) h =>
+    if acc.1.m.queue.contains h then
+      let (d, toks) := runDo acc.1 (acc.1.m.queue.idxOf h)
+      (d, acc.2 ++ toks)
+    else acc) (d, [])
 
 /-- ids of the `cb:` events of an implementation observation, in order -/
 def cbIdsOf (obs : String) : List Nat :=
@@ -277,7 +289,28 @@ def cbIdsOf (obs : String) : List Nat :=
 /-- execute one op line; `hints` = the implementation's tie choices (empty: FIFO) -/
 def exec (d : DS) (line : String) (hints : List Nat) : DS × String :=
   let ws := words line
+  let hd := ws.head?.getD ""
+  if d.dead && !(hd == "adv" || hd == "unblock" || hd == "reset") then (d, "bad-op") else
+  if d.blocked && !(hd == "adv" || hd == "unblock" || hd == "rstop" || hd == "reset") then (d, "bad-op") else
   match ws.head? with
+  | some "block" =>
+    if !d.rs || d.svc then (d, "bad-op") else
+    let d := { d with blocked := true }
+    (d, rsSuffix d [])
+  | some "unblock" =>
+    if !d.blocked then (d, "bad-op") else
+    let d := { d with blocked := false }
+    if d.dead then
+      let (d, toks) := pumpHinted d hints
+      (d, rsSuffix d toks)
+    else
+      let (d, toks, _) := pump 100000 d hints
+      (d, rsSuffix d toks)
+  | some "rstop" =>
+    let byv := (kv ws "by").getD ""
+    if !d.rs || d.svc || !(byv == "foreign" || byv == "owner") || (byv == "owner" && d.blocked) then (d, "bad-op") else
+    let d := { (settle (stepM d .stop).1) with dead := true }
+    (d, rsSuffix d [])
   | some "reset" =>
     let svc := (kvNat ws "svc").getD 0 == 1
     ({ rs := (kvNat ws "rs").getD 0 == 1 || svc, svc := svc }, "ok")
@@ -313,7 +346,10 @@ def exec (d : DS) (line : String) (hints : List Nat) : DS × String :=
   | some "adv" =>
     match kvNat ws "d" with
     | some du =>
-      if d.rs then
+      if d.rs && (d.blocked || d.dead) then
+        let d := manAdv d (d.m.now + du)
+        (d, s!"now={d.m.now} " ++ rsSuffix d [])
+      else if d.rs then
         let (d, toks) := rsAdv 1000000 d (d.m.now + du) hints
         (d, s!"now={d.m.now} " ++ rsSuffix d toks)
       else
@@ -537,7 +573,7 @@ def specStep (s : SS) (line : String) : SS × String :=
           match kvNat ws "id" with
           | some id => s.modify id fun ti => { ti with cancelled := true }
           | none => s
-        | some "stop" => { s with stopped := true }
+        | some "stop" | some "rstop" => { s with stopped := true }
         | _ => s
       -- callbacks may only run while the owner drains the queue
       let toks := evToks obs "ev"
@@ -552,6 +588,9 @@ def specStep (s : SS) (line : String) : SS × String :=
               s.flag "C14/callback-outside-drain" s!"Do of timer {p} ran {joinWith ";" cbs}"
             else s
           | none => s
+        else s
+      let s := if ws.head? == some "rstop" && !cbs.isEmpty then
+          s.flag "C14/callback-inside-stop" ("timer callbacks ran from inside StandardRunService.Stop: " ++ joinWith ";" cbs)
         else s
       let s := if kv ow "loop" == some "0" then s.flag "C14/callback-off-owner-goroutine" "a callback ran on a goroutine other than the run service's loop" else s
       let s := if s.svc then svcPre s ow else s
